@@ -302,6 +302,27 @@ def check_models(chk, models, seeds):
             chk.violation(f"HelicityModel.pickle(after-use):{attr}:{what.split(' of ')[0].split(':')[0]}", f"model {name}, after use: {attr}: {what}", case)
         chk.count(1)
         chk.nontrivial(("model", name, "after-use"))
+    # ... and a model that has been looked at and then edited in place (amplitudes is a plain mutable mapping): what is loaded is
+    # the model as it is now, derived attributes included
+    for name, model in sorted(models.items(), key=lambda kv: len(kv[1].amplitudes))[:2]:
+        case = {"model": name, "after": "model.expression read, one amplitude doubled in place"}
+        try:
+            work = pickle.loads(pickle.dumps(model))
+            with warnings.catch_warnings():
+                warnings.simplefilter("ignore")
+                _ = work.expression
+                k0 = next(k for k, v in work.amplitudes.items() if v != 0)
+                work.amplitudes[k0] = 2 * work.amplitudes[k0]
+                back = pickle.loads(pickle.dumps(work))
+                same = back.expression == work.expression and work.expression != model.expression
+        except Exception as e:  # noqa: BLE001
+            chk.violation(f"HelicityModel.pickle(after-edit):raises-{type(e).__name__}", f"model {name}: {e!r}", case)
+            continue
+        if not same:
+            chk.violation("HelicityModel.pickle(after-edit):expression-differs-after-load",
+                          f"model {name}: after reading model.expression and editing an amplitude in place, the loaded model's expression differs from the original's (or the original's did not follow the edit)", case)
+        chk.count(1)
+        chk.nontrivial(("model", name, "after-edit"))
     name = "canonical_bw_ff" if "canonical_bw_ff" in models else next(iter(models))
     m = models[name]
     try:
